@@ -139,10 +139,10 @@ def regenerate():
     return report
 
 
-def build(prop_id):
-    """Build the property's theorem module and the driver. Returns (ok, output, broken)."""
+def build(prop_id, more=()):
+    """Build the property's theorem module(s) and the driver. Returns (ok, output, broken)."""
     target = f"StathamModel.Props.{prop_id}"
-    rc, out = run(["lake", "build", target, "driver"], cwd=LEAN_DIR, timeout=3000)
+    rc, out = run(["lake", "build", target, *more, "driver"], cwd=LEAN_DIR, timeout=3000)
     broken = []
     if rc != 0:
         for m in re.finditer(r"error: (StathamModel/[\w/]+\.lean):(\d+):(\d+)", out):
@@ -174,9 +174,10 @@ def name_broken(broken):
     return out
 
 
-def audit(prop_id, extra_modules=()):
-    """#print axioms for every theorem of Props.<id> (and of the listed tie modules);
-    text scan of every imported project file."""
+def audit(prop_id, extra_modules=(), proof_modules=()):
+    """#print axioms for every theorem of Props.<id>, of further proof modules of the property, and of the
+    listed tie modules; text scan of every imported project file."""
+    extra_modules = tuple(proof_modules) + tuple(extra_modules)
     module = f"StathamModel.Props.{prop_id}"
     path = os.path.join(LEAN_DIR, "StathamModel", "Props", f"{prop_id}.lean")
     ns, names, examples = theorem_names(path)
@@ -192,6 +193,8 @@ def audit(prop_id, extra_modules=()):
         tmp = os.path.join(LEAN_DIR, f".audit_{prop_id}_{os.getpid()}.lean")
         with open(tmp, "w", encoding="utf8") as fh:
             fh.write(f"import {module}\n")
+            for pm in proof_modules:
+                fh.write(f"import {pm}\n")
             for n in names:
                 full = f"{ns}.{n}" if ns else n
                 fh.write(f"#print axioms {full}\n")
@@ -217,6 +220,8 @@ def audit(prop_id, extra_modules=()):
             if bad:
                 problems.append(f"{full} depends on disallowed axioms {bad}")
     files = lean_imports(module)
+    for pm in proof_modules:
+        files.update(lean_imports(pm))
     for mod, p in files.items():
         if "/Gen/" in p:
             continue
@@ -227,9 +232,9 @@ def audit(prop_id, extra_modules=()):
             "modules": sorted(files)}
 
 
-def leanchecker(prop_id):
+def leanchecker(prop_id, more=()):
     module = f"StathamModel.Props.{prop_id}"
-    rc, out = run(["lake", "env", "leanchecker", module], cwd=LEAN_DIR, timeout=3000)
+    rc, out = run(["lake", "env", "leanchecker", module, *more], cwd=LEAN_DIR, timeout=3000)
     return rc == 0, out[-1500:]
 
 
@@ -302,7 +307,8 @@ def run_check(mod, tier, seed, replay=None):
         gen = regenerate()
         for name, err in gen.get("errors", {}).items():
             broken.append(f"translator: {name}: {err}")
-        ok, out, where = build(prop_id)
+        proof_modules = tuple(getattr(mod, "PROOF_MODULES", ()))
+        ok, out, where = build(prop_id, proof_modules)
         if not ok:
             named = name_broken(where)
             broken.extend(named or ["lake build failed: " + out[-800:]])
@@ -310,11 +316,11 @@ def run_check(mod, tier, seed, replay=None):
             run(["lake", "build", "driver"], cwd=LEAN_DIR, timeout=3000)
         aud = {"theorems": [], "examples": 0, "axioms": {}, "problems": [], "modules": []}
         if ok:
-            aud = audit(prop_id, getattr(mod, "TIE_MODULES", ()))
+            aud = audit(prop_id, getattr(mod, "TIE_MODULES", ()), proof_modules)
             broken.extend(aud["problems"])
         checker = None
         if ok and tier == "thorough":
-            cok, cout = leanchecker(prop_id)
+            cok, cout = leanchecker(prop_id, proof_modules)
             checker = cok
             if not cok:
                 broken.append("leanchecker rejected the module: " + cout[-300:])
